@@ -470,6 +470,7 @@ class ParserText(ParserBase):
         try:
             value = self._parsable[self._parsed_length:]
             date_time = dateutil.parser.parse(six.ensure_text(value, self._encoding))
+            date_time.utcoffset()  # dateutil accepts a zone offset of 24 hours or more, which datetime cannot use
         except (ValueError, ArithmeticError) as e:  # dateutil: OverflowError, decimal.InvalidOperation
             six.raise_from(InvalidValue(value, type(self), 'value'), e)
 
